@@ -118,7 +118,7 @@ func (p ptIn) tlc() (map[string]any, error) {
 		ks = append(ks, k)
 		es = append(es, map[string]any{"flag": "tag", "v": encVal(p.Tags[k])})
 	}
-	return map[string]any{"meas": p.Meas, "ks": ks, "es": es}, nil
+	return map[string]any{"meas": p.Meas, "ks": ks, "es": es, "time": encI64(fixedTime.UnixNano())}, nil
 }
 
 func (p ptIn) build() (*input.Point, error) {
@@ -234,7 +234,8 @@ func v1Tables(o *runObs) (map[string]plruntime.FuncCall, map[string]plruntime.Fu
 			return err
 		}
 	}
-	for _, name := range []string{"set_tag", "rename", "cast", "set_measurement", "trim", "uppercase", "url_decode", "replace", "strfmt"} {
+	for _, name := range []string{"set_tag", "rename", "cast", "set_measurement", "trim", "uppercase", "url_decode", "replace", "strfmt",
+		"grok", "xml", "datetime", "default_time", "sql_cover"} {
 		name := name
 		orig := call[name]
 		call[name] = func(ctx *plruntime.Task, e *ast.CallExpr) *errchain.PlError {
@@ -611,6 +612,13 @@ func ptDiff(spec map[string]any, pt *input.Point) string {
 	if wantMeas != pt.Measurement {
 		return fmt.Sprintf("measurement want %q got %q", wantMeas, pt.Measurement)
 	}
+	if tm, ok := spec["time"]; ok {
+		var j jI64
+		remarshal(tm, &j)
+		if w, ok := decI64(j); ok && pt.Time.UnixNano() != w {
+			return fmt.Sprintf("time want %d ns got %d ns (%v)", w, pt.Time.UnixNano(), pt.Time.UTC())
+		}
+	}
 	ks, _ := spec["ks"].([]any)
 	es, _ := spec["es"].([]any)
 	if len(ks) != len(pt.Fields)+len(pt.Tags) {
@@ -636,6 +644,12 @@ func ptDiff(spec map[string]any, pt *input.Point) string {
 		got, ok := pt.Fields[key]
 		if !ok {
 			return fmt.Sprintf("field %s missing (fields=%v)", key, pt.Fields)
+		}
+		if v["t"] == "anystr" { // some text (a failure note): only its presence and type are demanded
+			if _, ok := got.(string); !ok {
+				return fmt.Sprintf("field %s: want a string, got %s", key, showVal(got))
+			}
+			continue
 		}
 		if v["t"] == "json" {
 			d := compactJSON2(v["d"])
